@@ -2197,9 +2197,82 @@ func (x *Exec) checkFrame(st *State) {
 			goals = append(goals, implies(w.guard, or(alts...)))
 		}
 		if len(goals) > 0 {
-			x.oblige(st, "frame", "frame:"+name, frameTags, and(goals...))
+			tags := frameTags
+			if x.prop != "" && !hasTag(tags, x.prop) && x.fieldInContractsOf(name) {
+				// the function writes, outside its declared frame, a struct field that the
+				// contracts of this property talk about: what they say of it rested on the frame
+				tags = append(tags[:len(tags):len(tags)], x.prop)
+			}
+			x.oblige(st, "frame", "frame:"+name, tags, and(goals...))
 		}
 	}
+}
+
+// fieldInContractsOf: comp is the heap component of a struct field ("fld_<type>_<field>") and
+// some clause tagged with the property being checked - of a function, a predicate or an event of
+// this package - mentions ".<field>".
+func (x *Exec) fieldInContractsOf(comp string) bool {
+	if !strings.HasPrefix(comp, "fld_") {
+		return false
+	}
+	if x.fieldTagCache == nil {
+		x.fieldTagCache = map[string]bool{}
+	}
+	if v, ok := x.fieldTagCache[comp]; ok {
+		return v
+	}
+	parts := strings.Split(comp, "_")
+	var cands []string
+	for n := 1; n <= 3 && n < len(parts)-1; n++ {
+		cands = append(cands, "."+strings.Join(parts[len(parts)-n:], "_"))
+	}
+	mentions := func(cs []*Clause) bool {
+		for _, c := range cs {
+			if !hasTag(c.Tags, x.prop) {
+				continue
+			}
+			for _, f := range cands {
+				for i := strings.Index(c.Text, f); i >= 0; {
+					end := i + len(f)
+					if end == len(c.Text) || !(c.Text[end] == '_' || c.Text[end] >= '0' && c.Text[end] <= '9' || c.Text[end] >= 'a' && c.Text[end] <= 'z' || c.Text[end] >= 'A' && c.Text[end] <= 'Z') {
+						return true
+					}
+					j := strings.Index(c.Text[end:], f)
+					if j < 0 {
+						break
+					}
+					i = end + j
+				}
+			}
+		}
+		return false
+	}
+	found := false
+	pkg := x.fn.pkgPath()
+	for _, f := range x.sp.Funcs {
+		if f.Pkg == pkg && !f.External {
+			if mentions(f.Clauses) {
+				found = true
+			}
+			for _, l := range f.Loops {
+				if mentions(l.Clauses) {
+					found = true
+				}
+			}
+		}
+	}
+	for _, pr := range x.sp.Preds {
+		if pr.Pkg == pkg && mentions(pr.Clauses) {
+			found = true
+		}
+	}
+	for _, ev := range x.sp.Events {
+		if ev.Pkg == pkg && mentions(ev.Clauses) {
+			found = true
+		}
+	}
+	x.fieldTagCache[comp] = found
+	return found
 }
 
 // observations lists, for the integer-slice and integer-map parameters of a function, the terms
